@@ -65,6 +65,10 @@ type Case struct {
 	Src   string   `json:"src"` // raw | atlas | second
 	CLI   bool     `json:"cli,omitempty"`
 	Edits []string `json:"edits,omitempty"`
+	// Script, when set, is a hand written list of raw statements that creates the database instead of
+	// the model (surface variants the model renderer does not produce); Tag names the variant.
+	Script []string `json:"script,omitempty"`
+	Tag    string   `json:"tag,omitempty"`
 }
 
 // Built says how the database under test came to be.
@@ -112,12 +116,24 @@ func sameModel(a, b sqlm.Schema) bool {
 
 func isAtlasMode(m string) bool { return m == "" || m == "atlas" }
 
+// openDB opens a file database with foreign keys on (as a user's sqlite://file?_fk=1 URL does). The
+// harness's own connections do not fsync and keep the rollback journal in memory: hundreds of scratch
+// databases are created per second and durability of scratch data is of no interest (transactions still
+// roll back). The CLI processes open the files their own way.
+func openDB(path string, fk bool) (*sql.DB, error) {
+	f := "1"
+	if !fk {
+		f = "0"
+	}
+	return sql.Open("sqlite3", "file:"+path+"?_fk="+f+"&_sync=0&_journal=MEMORY")
+}
+
 // build creates the database under test at path. why != "" means the harness could not set the case
 // up (inconclusive, never a verdict about C03).
 func build(ctx context.Context, path string, p sqlm.Pair) (b Built, why string) {
 	sqlm.RemoveDB(path)
 	if isAtlasMode(p.Mode) {
-		db, err := sqlm.OpenDB(path)
+		db, err := openDB(path, true)
 		if err != nil {
 			return b, "open: " + err.Error()
 		}
@@ -136,12 +152,18 @@ func build(ctx context.Context, path string, p sqlm.Pair) (b Built, why string) 
 		if !ok {
 			return b, "unknown style " + p.Mode
 		}
-		if err := sqlm.CreateRaw(path, p.A, st); err != nil {
+		rdb, err := openDB(path, false) // FK enforcement off: cyclic references, parents after children
+		if err != nil {
+			return b, "open: " + err.Error()
+		}
+		err = sqlm.ExecAll(rdb, p.A.DDL(st))
+		rdb.Close()
+		if err != nil {
 			return b, "setup-raw: " + err.Error()
 		}
 		// the raw renderer and the fact reader must agree about what was created; otherwise the
 		// independent leg of the oracle is not trustworthy for this case
-		db, err := sqlm.OpenDB(path)
+		db, err := openDB(path, true)
 		if err != nil {
 			return b, "open: " + err.Error()
 		}
@@ -157,7 +179,7 @@ func build(ctx context.Context, path string, p sqlm.Pair) (b Built, why string) 
 	if sameModel(p.A, p.B) {
 		return b, ""
 	}
-	db, err := sqlm.OpenDB(path)
+	db, err := openDB(path, true)
 	if err != nil {
 		return b, "open: " + err.Error()
 	}
@@ -177,7 +199,7 @@ func build(ctx context.Context, path string, p sqlm.Pair) (b Built, why string) 
 
 // inspectRealm inspects the file through a fresh connection, the way the CLI does for a sqlite:// URL.
 func inspectRealm(ctx context.Context, path string) (*schema.Realm, error) {
-	db, err := sqlm.OpenDB(path)
+	db, err := openDB(path, true)
 	if err != nil {
 		return nil, err
 	}
@@ -228,7 +250,7 @@ func apiHCL(ctx context.Context, path string) (string, error) {
 // (empty -> inspected) in dump mode, unqualified (the URL of a SQLite file names the schema "main"),
 // printed by the default formatter — what cmdlog.sqlInspect does.
 func apiSQL(ctx context.Context, path, indent string) (string, error) {
-	db, err := sqlm.OpenDB(path)
+	db, err := openDB(path, true)
 	if err != nil {
 		return "", err
 	}
@@ -265,7 +287,7 @@ func apiSQL(ctx context.Context, path, indent string) (string, error) {
 // applyGraph brings an EMPTY file to the evaluated schema through the real Atlas loop.
 func applyGraph(ctx context.Context, path string, want *schema.Schema) (stmts []string, err error) {
 	sqlm.RemoveDB(path)
-	db, err := sqlm.OpenDB(path)
+	db, err := openDB(path, true)
 	if err != nil {
 		return nil, err
 	}
@@ -294,7 +316,7 @@ func applyGraph(ctx context.Context, path string, want *schema.Schema) (stmts []
 }
 
 func factsOf(path string) (sqlm.Facts, error) {
-	db, err := sqlm.OpenDB(path)
+	db, err := openDB(path, true)
 	if err != nil {
 		return nil, err
 	}
@@ -305,7 +327,7 @@ func factsOf(path string) (sqlm.Facts, error) {
 // execScript executes an exported SQL script with go-sqlite3 on an EMPTY file — Atlas is not involved.
 func execScript(path, script string) error {
 	sqlm.RemoveDB(path)
-	db, err := sqlm.OpenDB(path)
+	db, err := openDB(path, true)
 	if err != nil {
 		return err
 	}
@@ -348,12 +370,12 @@ func planText(changes []schema.Change) []string {
 func (o *Outcome) diffLeg(leg, dir string, from, to func() (*schema.Schema, error)) {
 	f, err := from()
 	if err != nil {
-		o.atom(leg+"|"+dir+"|graph-error|"+sqlm.ErrClass(err.Error()), leg+" "+dir+" error", err.Error())
+		o.atom(leg+"|"+dir+"|graph-error|"+errKind(err.Error()), leg+" "+dir+" error", err.Error())
 		return
 	}
 	t, err := to()
 	if err != nil {
-		o.atom(leg+"|"+dir+"|graph-error|"+sqlm.ErrClass(err.Error()), leg+" "+dir+" error", err.Error())
+		o.atom(leg+"|"+dir+"|graph-error|"+errKind(err.Error()), leg+" "+dir+" error", err.Error())
 		return
 	}
 	var changes []schema.Change
@@ -362,7 +384,7 @@ func (o *Outcome) diffLeg(leg, dir string, from, to func() (*schema.Schema, erro
 		return
 	}
 	if err != nil {
-		o.atom(leg+"|"+dir+"|diff-error|"+sqlm.ErrClass(err.Error()), leg+" "+dir+" error", err.Error())
+		o.atom(leg+"|"+dir+"|diff-error|"+errKind(err.Error()), leg+" "+dir+" error", err.Error())
 		return
 	}
 	if len(changes) == 0 {
@@ -398,6 +420,20 @@ func (c *cliRunner) inspect(path string, format string) sqlm.CLIResult {
 	}
 	c.log = append(c.log, lr)
 	return r
+}
+
+// errKind is a coarse, text independent class of an engine / Atlas error, for finding keys.
+func errKind(err string) string {
+	l := strings.ToLower(err)
+	switch {
+	case strings.Contains(l, "syntax error") || strings.Contains(l, "unrecognized token") || strings.Contains(l, "incomplete input"):
+		return "syntax"
+	case strings.Contains(l, "no such"):
+		return "no-such-object"
+	case strings.Contains(l, "already exists") || strings.Contains(l, "duplicate"):
+		return "duplicate-object"
+	}
+	return sqlm.ErrClass(err)
 }
 
 func lastLine(s string) string {
@@ -442,8 +478,12 @@ func evalDB(ctx context.Context, dir, path, atlas string, o *Outcome) {
 				o.Inconclusive = "cli " + what + " hung or could not start"
 				return "", false
 			}
-			if a.Exit != 0 || b.Exit != 0 {
-				o.atom("cli|inspect-"+what+"|exit|"+sqlm.ErrClass(lastLine(a.Stderr+b.Stderr)), "cli "+what+" error", a.Stderr+b.Stderr)
+			if a.Exit != 0 && b.Exit != 0 {
+				o.Inconclusive = "export-refused: cli " + what + ": " + lastLine(a.Stderr)
+				return "", false
+			}
+			if a.Exit != b.Exit {
+				o.atom("determinism|"+what+"|cli-exit", "determinism "+what, map[string]any{"first": a, "second": b})
 				return "", false
 			}
 			if a.Stdout != b.Stdout {
@@ -452,15 +492,11 @@ func evalDB(ctx context.Context, dir, path, atlas string, o *Outcome) {
 			return a.Stdout, true
 		}
 		var ok bool
-		if hcl, ok = get("", "hcl"); !ok {
-			if o.Inconclusive != "" {
-				return
-			}
+		if hcl, ok = get("", "hcl"); !ok && o.Inconclusive != "" {
+			return
 		}
-		if sqlText, ok = get("{{ sql . }}", "sql"); !ok {
-			if o.Inconclusive != "" {
-				return
-			}
+		if sqlText, ok = get("{{ sql . }}", "sql"); !ok && o.Inconclusive != "" {
+			return
 		}
 		r := cr.inspect(path, `{{ sql . "  " }}`)
 		switch {
@@ -468,7 +504,8 @@ func evalDB(ctx context.Context, dir, path, atlas string, o *Outcome) {
 			o.Inconclusive = "cli sql-indent hung"
 			return
 		case r.Exit != 0:
-			o.atom("cli|inspect-sql-indent|exit|"+sqlm.ErrClass(lastLine(r.Stderr)), "cli sql-indent error", r.Stderr)
+			o.Inconclusive = "export-refused: cli sql-indent: " + lastLine(r.Stderr)
+			return
 		default:
 			sqlIndent = r.Stdout
 		}
@@ -481,19 +518,22 @@ func evalDB(ctx context.Context, dir, path, atlas string, o *Outcome) {
 			o.CLIvsAPI = "differ"
 		}
 	} else {
+		// an inspection that REFUSES the database prints no export: a missing observation, neither
+		// held nor violated (reported as inconclusive "export-refused", listed in the notes)
 		if errH != nil {
-			o.atom("hcl-export|export-error|"+sqlm.ErrClass(errH.Error()), "hcl export error", errH.Error())
+			o.Inconclusive = "export-refused: hcl: " + errH.Error()
+			return
 		}
 		if errS != nil {
-			o.atom("sql-export|export-error|"+sqlm.ErrClass(errS.Error()), "sql export error", errS.Error())
+			o.Inconclusive = "export-refused: sql: " + errS.Error()
+			return
 		}
 		hcl, sqlText = apiH, apiS
-		if errS == nil {
-			if s, err := apiSQL(ctx, path, "  "); err != nil {
-				o.atom("sql-export|export-error|indent|"+sqlm.ErrClass(err.Error()), "sql indent export error", err.Error())
-			} else {
-				sqlIndent = s
-			}
+		if s, err := apiSQL(ctx, path, "  "); err != nil {
+			o.Inconclusive = "export-refused: sql-indent: " + err.Error()
+			return
+		} else {
+			sqlIndent = s
 		}
 	}
 	// (D2) in-process determinism: a second export from fresh connections
@@ -515,7 +555,7 @@ func evalDB(ctx context.Context, dir, path, atlas string, o *Outcome) {
 		leg := "hcl-export"
 		g, err := evalHCL(hcl)
 		if err != nil {
-			o.atom(leg+"|eval-error|"+sqlm.ErrClass(err.Error()), "hcl eval error", err.Error())
+			o.atom(leg+"|eval-error|"+errKind(err.Error()), "hcl eval error", err.Error())
 		} else {
 			ev := func() (*schema.Schema, error) { return evalHCL(hcl) }
 			o.diffLeg(leg, "db->export", fresh, ev)
@@ -532,8 +572,7 @@ func evalDB(ctx context.Context, dir, path, atlas string, o *Outcome) {
 			cp := filepath.Join(dir, "hcl-copy.db")
 			stmts, err := applyGraph(ctx, cp, g)
 			if err != nil {
-				cls := sqlm.ErrClass(err.Error())
-				o.atom(leg+"|apply-error|"+cls, "hcl apply error", map[string]any{"error": err.Error(), "stmts": stmts})
+				o.atom(leg+"|apply-error|"+errKind(err.Error()), "hcl apply error", map[string]any{"error": err.Error(), "stmts": stmts})
 			} else if got, err := factsOf(cp); err != nil {
 				o.Inconclusive = "facts(hcl copy): " + err.Error()
 			} else if d := sqlm.DiffFacts(orig, got); len(d) > 0 {
@@ -548,12 +587,14 @@ func evalDB(ctx context.Context, dir, path, atlas string, o *Outcome) {
 	if sqlText != "" {
 		leg := "sql-export"
 		cp := filepath.Join(dir, "sql-copy.db")
+		var plainFacts sqlm.Facts
 		if err := execScript(cp, sqlText); err != nil {
-			o.atom(leg+"|exec-error|"+sqlm.ErrClass(err.Error()), "sql exec error", err.Error())
+			o.atom(leg+"|exec-error|"+errKind(err.Error()), "sql exec error", err.Error())
 		} else {
 			if got, err := factsOf(cp); err != nil {
 				o.Inconclusive = "facts(sql copy): " + err.Error()
-			} else if d := sqlm.DiffFacts(orig, got); len(d) > 0 {
+			} else if plainFacts = got; len(sqlm.DiffFacts(orig, got)) > 0 {
+				d := sqlm.DiffFacts(orig, got)
 				for _, k := range sqlm.DiffKinds(d) {
 					o.atom(leg+"|facts|"+k, "sql facts diff", d)
 				}
@@ -563,14 +604,22 @@ func evalDB(ctx context.Context, dir, path, atlas string, o *Outcome) {
 			o.diffLeg(leg, "export->db", copyG, fresh)
 		}
 		sqlm.RemoveDB(cp)
+		// (S5) the indented form must create what the plain form creates (compared with the original
+		// only when the plain form could not be executed, so that one defect is not reported twice)
 		if sqlIndent != "" {
+			ref, refName := orig, "db"
+			if plainFacts != nil {
+				ref, refName = plainFacts, "plain"
+			}
 			if err := execScript(cp, sqlIndent); err != nil {
-				o.atom(leg+"|indent|exec-error|"+sqlm.ErrClass(err.Error()), "sql indent exec error", err.Error())
+				if plainFacts != nil {
+					o.atom(leg+"|indent|exec-error|"+errKind(err.Error()), "sql indent exec error", err.Error())
+				}
 			} else if got, err := factsOf(cp); err != nil {
 				o.Inconclusive = "facts(sql indent copy): " + err.Error()
-			} else if d := sqlm.DiffFacts(orig, got); len(d) > 0 {
+			} else if d := sqlm.DiffFacts(ref, got); len(d) > 0 {
 				for _, k := range sqlm.DiffKinds(d) {
-					o.atom(leg+"|indent|facts|"+k, "sql indent facts diff", d)
+					o.atom(leg+"|indent-vs-"+refName+"|facts|"+k, "sql indent facts diff", d)
 				}
 			}
 			sqlm.RemoveDB(cp)
@@ -578,11 +627,31 @@ func evalDB(ctx context.Context, dir, path, atlas string, o *Outcome) {
 	}
 }
 
-// runCase builds the database of a pair and evaluates it.
-func runCase(ctx context.Context, dir string, p sqlm.Pair, atlas string) (o Outcome) {
+// buildScript creates the database from hand written statements (foreign key enforcement off).
+func buildScript(path string, script []string) string {
+	sqlm.RemoveDB(path)
+	db, err := openDB(path, false)
+	if err != nil {
+		return "open: " + err.Error()
+	}
+	defer db.Close()
+	if err := sqlm.ExecAll(db, script); err != nil {
+		return "setup-script: " + err.Error()
+	}
+	return ""
+}
+
+// runCase builds the database of a pair (or of a script) and evaluates it.
+func runCase(ctx context.Context, dir string, p sqlm.Pair, atlas string, script ...string) (o Outcome) {
 	os.MkdirAll(dir, 0o755)
 	path := filepath.Join(dir, "f.db")
-	b, why := build(ctx, path, p)
+	var b Built
+	var why string
+	if len(script) > 0 {
+		why = buildScript(path, script)
+	} else {
+		b, why = build(ctx, path, p)
+	}
 	o.Built = b
 	if why != "" {
 		o.Inconclusive = why
@@ -597,7 +666,7 @@ type monitor struct {
 	c    *rt.Ctx
 	memo sync.Map // pair -> []string atoms ("\x00inconclusive" when the case could not be set up)
 	// own tallies for the "observed nothing" guard
-	evals, inconcl, cli, alter, rebuild, raw, renamed atomic.Int64
+	evals, inconcl, refused, cli, alter, rebuild, raw atomic.Int64
 }
 
 func pairJSON(p sqlm.Pair) string {
@@ -642,7 +711,24 @@ func (m *monitor) keyFor(ctx context.Context, dir string, cs Case, atom string, 
 	if viaCLI {
 		budget = 60
 	}
-	min, runs := sqlm.Shrink(cs.Pair, has, budget)
+	// pre-step: most failures live in one table. Restricting the pair to a single table first (instead
+	// of dropping the other tables one by one) lands on pairs that were shrunk before (memo hits).
+	start, pre := cs.Pair, 0
+	if names := tableNames(cs.Pair); len(names) > 1 {
+		for _, keep := range names {
+			cand := restrict(cs.Pair, keep)
+			if !cand.Valid() {
+				continue
+			}
+			pre++
+			if has(cand) {
+				start = cand
+				break
+			}
+		}
+	}
+	min, runs := sqlm.Shrink(start, has, budget)
+	runs += pre
 	// generalise the creation mode: which ways of creating the residual show the atom?
 	var in []string
 	for _, mode := range allModes {
@@ -671,6 +757,30 @@ func (m *monitor) keyFor(ctx context.Context, dir string, cs Case, atom string, 
 	return m.c.Prop + "|" + atom + "|" + strings.Join(feats, "+"), min, runs
 }
 
+func tableNames(p sqlm.Pair) []string {
+	var out []string
+	for _, s := range []sqlm.Schema{p.A, p.B} {
+		for _, t := range s.Tables {
+			if !slices.Contains(out, t.Name) {
+				out = append(out, t.Name)
+			}
+		}
+	}
+	return out
+}
+
+// restrict returns the pair reduced to one table (foreign keys to other tables removed).
+func restrict(p sqlm.Pair, keep string) sqlm.Pair {
+	q := sqlm.Pair{A: p.A.Clone(), B: p.B.Clone(), Mode: p.Mode, Rows: p.Rows}
+	for _, s := range []*sqlm.Schema{&q.A, &q.B} {
+		s.Tables = slices.DeleteFunc(s.Tables, func(t sqlm.Table) bool { return t.Name != keep })
+		for i := range s.Tables {
+			s.Tables[i].FKs = slices.DeleteFunc(s.Tables[i].FKs, func(f sqlm.FK) bool { return f.RefTable != keep })
+		}
+	}
+	return q
+}
+
 func trim(s string, n int) string {
 	if len(s) > n {
 		return s[:n] + "…"
@@ -685,7 +795,7 @@ func (m *monitor) evaluate(ctx context.Context, dir string, cs Case) Outcome {
 	if cs.CLI {
 		atlas = c.Atlas
 	}
-	o := runCase(ctx, filepath.Join(dir, "case"), cs.Pair, atlas)
+	o := runCase(ctx, filepath.Join(dir, "case"), cs.Pair, atlas, cs.Script...)
 	leg := "api"
 	if cs.CLI {
 		leg = "cli"
@@ -695,6 +805,16 @@ func (m *monitor) evaluate(ctx context.Context, dir string, cs Case) Outcome {
 	c.Count("src:"+cs.Src, 1)
 	c.Count("mode:"+cs.Mode, 1)
 	m.evals.Add(1)
+	if cs.Tag != "" {
+		c.Count("script:"+cs.Tag, 1)
+	}
+	if strings.HasPrefix(o.Inconclusive, "export-refused") {
+		// not counted against the 5% guard: a deterministic answer of Atlas, just not a verdict
+		m.refused.Add(1)
+		c.Inconclusive("export-refused " + cs.Src + " " + cs.Tag + ": " + sqlm.ErrClass(o.Inconclusive))
+		fmt.Fprintf(os.Stderr, "export refused %s: %s\n", cs.Name, trim(o.Inconclusive, 300))
+		return o
+	}
 	if o.Inconclusive != "" {
 		m.inconcl.Add(1)
 		c.Inconclusive(strings.SplitN(o.Inconclusive, ":", 2)[0])
@@ -720,9 +840,11 @@ func (m *monitor) evaluate(ctx context.Context, dir string, cs Case) Outcome {
 			}
 		}
 	}
-	fin := sqlm.Pair{A: cs.B, B: cs.B, Mode: "atlas"}
-	for _, f := range fin.Features() {
-		c.Count("feature:"+f, 1)
+	if len(cs.Script) == 0 {
+		fin := sqlm.Pair{A: cs.B, B: cs.B, Mode: "atlas"}
+		for _, f := range fin.Features() {
+			c.Count("feature:"+f, 1)
+		}
 	}
 	for _, e := range cs.Edits {
 		c.Count("edit:"+e, 1)
@@ -741,6 +863,14 @@ func (m *monitor) evaluate(ctx context.Context, dir string, cs Case) Outcome {
 		return o
 	}
 	c.Count("violated-cases", 1)
+	if len(cs.Script) > 0 {
+		// hand written variants are not shrunk: the tag names the surface feature under test
+		for _, atom := range o.Atoms {
+			c.Violation(c.Prop+"|"+atom+"|script:"+cs.Tag, fmt.Sprintf("%s: %s (database %q)", leg, atom, cs.Name), cs,
+				map[string]any{"atoms": o.Atoms, "detail": o.Detail, "hcl_export": trim(o.HCL, 4000), "sql_export": trim(o.SQL, 4000)})
+		}
+		return o
+	}
 	// one finding per atom, keyed by the shrunk residual
 	var inproc []string
 	if cs.CLI {
@@ -775,7 +905,11 @@ func replay(c *rt.Ctx, raw json.RawMessage) {
 	dir := filepath.Join(c.Scratch, "replay")
 	os.MkdirAll(dir, 0o755)
 	fmt.Println("database created with mode " + cs.Mode + ":")
-	if st, ok := sqlm.StyleByName(cs.Mode); ok {
+	if len(cs.Script) > 0 {
+		for _, s := range cs.Script {
+			fmt.Println("  " + s + ";")
+		}
+	} else if st, ok := sqlm.StyleByName(cs.Mode); ok {
 		for _, s := range cs.A.DDL(st) {
 			fmt.Println("  " + s + ";")
 		}
@@ -839,5 +973,3 @@ func run(c *rt.Ctx) {
 		os.Exit(4)
 	}
 }
-
-var _ = sql.ErrNoRows
